@@ -767,6 +767,14 @@ def _in_place(old, new):
     return new
 
 
+def check_state(lid, state, known):
+    """a hand-written loop object covers the loop-carried state named in `known`; any other state the body carries from one
+    iteration to the next is not covered by its invariant: everything after the loop is then UNDECIDED"""
+    extra = [n for n in state if n not in known]
+    if extra:
+        raise Unmodelled('loop %s carries state %s that its invariant does not cover' % (lid, ', '.join(extra)))
+
+
 class _quiet:
     """spec-side evaluation: no definedness obligations"""
 
@@ -790,7 +798,7 @@ class MapLoop:
     def _short(self):
         return self.lid.split('#', 1)[1]
 
-    def havoc(self, env, names):
+    def havoc(self, env, names, state=()):
         c = ctx()
         # invariant on entry (A-obligation), with the pre-loop values
         env0 = dict(env)
